@@ -133,9 +133,10 @@ Proof. exact (parse_print_full_code a). Qed.
     dynamic reordering disabled: the result denotes the reading of the tree;
     old references keep their meaning ([extends]). *)
 Theorem C05_eval_ast_sem s a r s' :
-  Inv s → last_len s = None → ok_ast s a →
+  Inv s → last_len s = None → max_nodes s = None → ok_ast s a →
   eval_ast a s = (r, s') →
-  ∃ u, r = Ok u ∧ Inv s' ∧ extends s s' ∧ last_len s' = None ∧ valid s' u ∧
+  ∃ u, r = Ok u ∧ Inv s' ∧ extends s s' ∧ last_len s' = None ∧
+       max_nodes s' = None ∧ valid s' u ∧
        ∀ ρ, denv s' u ρ = asem s a ρ.
 Proof. exact (eval_ast_sem s a r s'). Qed.
 
@@ -166,10 +167,11 @@ Qed.
 
 (** [add_expr] on the lexemes of a formula *)
 Theorem C05_add_expr_sem lt rw P spellings ts a s r s' :
-  Inv s → last_len s = None →
+  Inv s → last_len s = None → max_nodes s = None →
   lex_all lt rw spellings = Some ts → parse P ts = Some a → ok_ast s a →
   add_expr lt rw P spellings s = (r, s') →
-  ∃ u, r = Ok u ∧ Inv s' ∧ extends s s' ∧ last_len s' = None ∧ valid s' u ∧
+  ∃ u, r = Ok u ∧ Inv s' ∧ extends s s' ∧ last_len s' = None ∧
+       max_nodes s' = None ∧ valid s' u ∧
        ∀ ρ, denv s' u ρ = asem s a ρ.
 Proof. exact (add_expr_sem lt rw P spellings ts a s r s'). Qed.
 
@@ -183,11 +185,11 @@ Proof. exact (ok_astb_ok s0 a). Qed.
     of a syntax tree [a] whose evaluation returns the very reference [u]
     (AST level) *)
 Theorem C05_to_expr_roundtrip_ast s u :
-  Inv s → valid s u → last_len s = None →
+  Inv s → valid s u → last_len s = None → max_nodes s = None →
   ∃ a, to_expr_ast (S (S (nvars s))) u s = (Ok a, s) ∧
        to_expr u s = (Ok (expr_text a), s) ∧
        ∀ r s', eval_ast a s = (r, s') →
-         r = Ok u ∧ Inv s' ∧ extends s s' ∧ last_len s' = None.
+         r = Ok u ∧ Inv s' ∧ extends s s' ∧ last_len s' = None ∧ max_nodes s' = None.
 Proof. exact (to_expr_roundtrip_ast s u). Qed.
 
 (** ... and the lexemes of that text, lexed with the code's tables, parsed
@@ -196,22 +198,22 @@ Proof. exact (to_expr_roundtrip_ast s u). Qed.
     part of the model: [te_spellings a] lists the lexemes of
     [expr_text a].) *)
 Theorem C05_to_expr_roundtrip s u :
-  Inv s → valid s u → last_len s = None →
+  Inv s → valid s u → last_len s = None → max_nodes s = None →
   ∃ a, to_expr u s = (Ok (expr_text a), s) ∧
        lex (te_spellings a) = Some (te_tokens a) ∧
        parse code_prec (te_tokens a) = Some a ∧
        ∀ r s', add_expr lex_alias reserved_words code_prec (te_spellings a) s = (r, s') →
-         r = Ok u ∧ Inv s' ∧ extends s s' ∧ last_len s' = None.
+         r = Ok u ∧ Inv s' ∧ extends s s' ∧ last_len s' = None ∧ max_nodes s' = None.
 Proof. exact (to_expr_roundtrip s u). Qed.
 
 (** ... and on the text itself, split into lexemes by the hand-written
     splitter [split_formula] (blanks separate; parentheses and commas stand
     alone): [add_expr_ (split (to_expr u))] returns [u]. *)
 Theorem C05_to_expr_roundtrip_text s u :
-  Inv s → valid s u → last_len s = None →
+  Inv s → valid s u → last_len s = None → max_nodes s = None →
   ∃ txt, to_expr u s = (Ok txt, s) ∧
     ∀ r s', add_expr_ (split_formula txt) s = (r, s') →
-      r = Ok u ∧ Inv s' ∧ extends s s' ∧ last_len s' = None.
+      r = Ok u ∧ Inv s' ∧ extends s s' ∧ last_len s' = None ∧ max_nodes s' = None.
 Proof. exact (to_expr_roundtrip_text s u). Qed.
 
 (** ** Non-vacuity: a manager with three variables; one formula in two
@@ -226,7 +228,7 @@ Example C05_nonvacuous :
              "&"; "~"; "v0"; "->"; "ite"; "("; "v2"; ","; "false"; ","; "v1"; ")"] in
   let w1 := fst (step_expr w0 0 e1) in
   let s0 := world2_get w0 0 in
-  last_len s0 = None ∧
+  last_len s0 = None ∧ max_nodes s0 = None ∧
   parse_show e1 = Ok (VS
     "(=> (| (& v0 (! v1)) (& (\E [v2] (# v2 v1)) (! v0))) (ite v2 F v1))") ∧
   match lex e1 ≫= parse code_prec with
